@@ -27,6 +27,16 @@ _TASKS = None
 _KNOWN_KEYS = None
 
 
+def _outdir(core):
+    """Evidence and new replay files go to /verif, except in development runs against a scratch
+    copy of the repository (VERIF_REPO set), which must not overwrite the real evidence."""
+    if os.path.realpath(core.REPO) == "/repo":
+        return core.VERIF
+    d = os.path.join("/tmp", "vf-scratch-out", os.path.basename(os.path.realpath(core.REPO)))
+    os.makedirs(d, exist_ok=True)
+    return d
+
+
 def _job(arg):
     ti, shard = arg
     from . import core
@@ -136,7 +146,7 @@ def main(argv=None):
     for (chk, key), f in sorted(found.items(), key=lambda kv: kv[0]):
         doc = f.to_json(prop)
         blob = json.dumps(doc, ensure_ascii=True, sort_keys=True)
-        d = os.path.join(core.VERIF, "replays", "found", prop)
+        d = os.path.join(_outdir(core), "replays", "found", prop)
         os.makedirs(d, exist_ok=True)
         path = os.path.join(d, hashlib.sha1(blob.encode()).hexdigest()[:16] + ".json")
         with open(path, "w", encoding="utf-8") as fh:
@@ -185,8 +195,8 @@ def main(argv=None):
         "wall_s": round(time.time() - t0, 2),
         "violations": len(violations),
     }
-    os.makedirs(os.path.join(core.VERIF, "evidence"), exist_ok=True)
-    evpath = os.path.join(core.VERIF, "evidence", "%s.json" % prop)
+    os.makedirs(os.path.join(_outdir(core), "evidence"), exist_ok=True)
+    evpath = os.path.join(_outdir(core), "evidence", "%s.json" % prop)
     with open(evpath + ".tmp", "w", encoding="utf-8") as fh:
         json.dump(doc, fh, indent=1, ensure_ascii=True)
         fh.write("\n")
